@@ -27,6 +27,45 @@ Proof.
   - match goal with |- or_none (if ?c then _ else _) = _ => destruct c end; reflexivity.
 Qed.
 
+(* the parser table the source builds selects the list parser exactly for the reserved names *)
+Lemma parser_table : forall cat,
+  pupdate (pset (pset (pset (pset (pdefault P_general) s_taxonomy P_vlen_list) s_Taxonomy P_vlen_list)
+                      s_KEGG P_vlen_list) s_collapsed P_vlen_list) [] cat
+  = if reserved cat then P_vlen_list else P_general.
+Proof.
+  intro cat. unfold pupdate, pset, pdefault, reserved.
+  destruct (lz_eqb cat s_taxonomy), (lz_eqb cat s_Taxonomy), (lz_eqb cat s_KEGG), (lz_eqb cat s_collapsed); reflexivity.
+Qed.
+
+Lemma parse_with_column : forall cat d,
+  parse_with (if reserved cat then P_vlen_list else P_general) d = parse_column cat d.
+Proof. intros cat d. unfold parse_column. destruct (reserved cat); reflexivity. Qed.
+
+Lemma mapM_ext : forall A B (f g : A -> result B) l, (forall x, f x = g x) -> mapM f l = mapM g l.
+Proof. intros A B f g l H. induction l as [|x t IH]; cbn [mapM]; [reflexivity|]. rewrite H, IH. reflexivity. Qed.
+
+Lemma seq_empty_rows : forall ids : list str, length (empty_rows ids) = length ids.
+Proof. intro ids. unfold empty_rows. apply map_length. Qed.
+
+(* the nested axis_load regenerated from the source (ids, the parser table, the rows, all-empty
+   metadata -> None, group metadata) is the hand-written axis_load *)
+Theorem axis_load_is_source : forall f a, axis_load_gen f [] [a] = axis_load f a.
+Proof.
+  intros f a. unfold axis_load_gen, axis_load, h5_ids, md_loop, gmd_read, any_row, ret. cbn [app].
+  destruct (need_dset f [a; b_ids]) as [d|]; cbn [bind]; [|reflexivity].
+  destruct (load_ids d) as [ids|]; cbn [bind]; [|reflexivity].
+  destruct (has_group f [a; b_metadata]); cbn [bind]; [|reflexivity].
+  rewrite (mapM_ext _ _ _
+    (fun nd => bind (dec (fst nd)) (fun name => let cat := unsanitize name in
+               bind (parse_column cat (snd nd)) (fun vals => ROk (cat, vals))))).
+  2:{ intro nd. destruct (dec (fst nd)); cbn [bind]; [|reflexivity].
+      cbv zeta. rewrite parser_table, parse_with_column. reflexivity. }
+  rewrite seq_empty_rows.
+  destruct (mapM _ (children f [a; b_metadata])) as [cols|]; cbn [bind]; [|reflexivity].
+  destruct (has_group f [a; b_group_metadata]); cbn [bind]; [|reflexivity].
+  destruct (mapM _ (children f [a; b_group_metadata])) as [gm|]; cbn [bind]; reflexivity.
+Qed.
+
 Lemma type_read : forall f,
   bind (bind (h5_attr f b_type) (fun v => ret (str_eq v [])))
        (fun c => if c then ret None else bind (h5_attr f b_type) (fun v => ret (Some v)))
@@ -46,7 +85,7 @@ Proof.
   unfold h5_attr_shape.
   destruct (get_attr (attrs f) b_shape) as [[b|z|[|n [|m [|x l]]]]|]; cbn [bind]; try reflexivity.
   destruct (attr_text f b_type) as [ty|]; cbn [bind]; [|reflexivity].
-  unfold axis_load_prim.
+  rewrite !axis_load_is_source.
   destruct (axis_load f b_observation) as [[[oids omd] ogmd]|] eqn:Eo; cbn [bind]; [|reflexivity].
   destruct (axis_load f b_sample) as [[[sids smd] sgmd]|] eqn:Es; cbn [bind]; [|reflexivity].
   rewrite (axis_load_or_none _ _ _ _ _ Eo), (axis_load_or_none _ _ _ _ _ Es).
